@@ -2,7 +2,8 @@ from betterproto import casing
 
 
 def pythonize_class_name(name: str) -> str:
-    return casing.pascal_case(name)
+    # a message called `none` or `_` must not become `None` or an empty name
+    return casing.sanitize_name(casing.pascal_case(name))
 
 
 def pythonize_field_name(name: str) -> str:
